@@ -265,6 +265,8 @@ type replayResult struct {
 	Reproduced bool        `json:"reproduced"`
 	Violations []violation `json:"violations"`
 	Digest     string      `json:"digest"`
+	Scenario   interface{} `json:"scenario,omitempty"`
+	Trace      []string    `json:"trace,omitempty"`
 }
 
 type agg struct {
@@ -711,6 +713,13 @@ func confirmReplay(b *built, rf *replayFile, kn []known) bool {
 	for attempt := 0; attempt < 3; attempt++ {
 		r := runWorker(b, j, 100000+rf.Run*4+attempt, 2, 10*time.Minute)
 		if r.agg != nil && r.agg.Replayed != nil {
+			// the fresh replay ran with tracing on: a replay file that was not shrunk gets its schedule trace from here
+			if len(rf.Trace) == 0 && r.agg.Replayed.Reproduced {
+				rf.Trace = r.agg.Replayed.Trace
+				if rf.Scenario == nil {
+					rf.Scenario = r.agg.Replayed.Scenario
+				}
+			}
 			return r.agg.Replayed.Reproduced
 		}
 		// process-level failures reproduce by dying the same way
